@@ -107,6 +107,13 @@ func c16Cells(tier string) []string {
 	for _, cmd := range []string{"update", "update-all", "format", "format-all", "renumber", "renumber-all", "copyright"} {
 		cells = append(cells, "write-erofs|io|"+cmd, "write-enospc|io|"+cmd)
 	}
+	// a file the command has to read cannot be read (EACCES on open, EIO on read), injected through the I/O seam
+	for _, cmd := range []string{"generate", "update", "update-all", "compare", "compare-all", "compare-all-gh", "format", "format-check", "format-all", "renumber", "renumber-check", "renumber-all", "copyright"} {
+		cells = append(cells, "read-eacces|io|"+cmd, "read-eio|io|"+cmd)
+	}
+	for _, cmd := range []string{"generate", "update", "compare"} {
+		cells = append(cells, "read-eacces|io-include|"+cmd)
+	}
 	return cells
 }
 
@@ -332,6 +339,30 @@ func genC16(t *rapid.T, tier string) (*World, any) {
 			p.Argv = []string{"chore", "update-copyright", "-v", "", "-y", "2026"}
 		}
 		p.Target = ""
+	case class == "read-eacces" || class == "read-eio":
+		p.Mode = "read-fault"
+		kind := strings.TrimPrefix(class, "read-")
+		suffix := ".ra"
+		switch {
+		case position == "io-include":
+			suffix = "include/inc1.ra"
+			lines := append(append([]string{}, progs[victim]...), "##!> include inc1")
+			w.Put("crs/regex-assembly/"+victim+".ra", joinLines(lines))
+			control.Put("crs/regex-assembly/"+victim+".ra", joinLines(lines))
+		case cmd == "update" || cmd == "update-all" || strings.HasPrefix(cmd, "compare"):
+			suffix = pick(t, []string{".conf", ".ra"}, "rsuffix")
+		case strings.HasPrefix(cmd, "renumber"):
+			suffix = ".yaml"
+			if cmd == "renumber" || cmd == "renumber-check" {
+				p.Argv = append(append([]string{}, single[cmd]...), "942100")
+			}
+		case cmd == "copyright":
+			suffix = pick(t, []string{".conf", ".example"}, "cpsuffix")
+		}
+		p.CtlArgv = p.Argv
+		for _, op := range []string{"open", "readfile"} {
+			p.Plan.IOFaults = append(p.Plan.IOFaults, simrt.IOFault{Op: op, PathSuffix: suffix, Nth: 1, Kind: kind})
+		}
 	case class == "write-erofs" || class == "write-enospc":
 		p.Mode = "write-fault"
 		kind := strings.TrimPrefix(class, "write-")
@@ -413,6 +444,28 @@ func evalC16(sc *Scenario, sim *Sim) ([]Violation, bool, string) {
 	after := sb.Snap()
 	changed := before.Diff(after, false)
 	switch p.Mode {
+	case "read-fault":
+		fired := false
+		for _, e := range r.Trace {
+			if e.Kind == "IO" && len(e.Fields) >= 3 && strings.HasPrefix(e.Fields[2], "FAULT:") {
+				fired = true
+			}
+		}
+		if !fired {
+			sim.Stats.probe("read-fault-not-reached")
+			return nil, false, ""
+		}
+		if r.Exit == 0 {
+			add("exit0", "a file the command needs could not be read ("+p.Class+") but the command exited 0", fmt.Sprintf("stdout: %q\nstderr: %s", clip(r.Stdout), clip(r.Stderr)))
+		}
+		if strings.HasPrefix(p.Cmd, "generate") && len(r.Stdout) > 0 {
+			add("regex-printed", "generate could not read its input but printed a regex", clip(r.Stdout))
+		}
+		// update-copyright walks the whole tree like an --all run: files before the unreadable one may have been written
+		if !strings.Contains(p.Cmd, "all") && p.Cmd != "copyright" && len(changed) > 0 {
+			add("tree-modified", "the failing command changed the tree: "+strings.Join(changed, " "), "")
+		}
+		return viol, true, p.Cell
 	case "write-fault":
 		fired := false
 		for _, e := range r.Trace {
@@ -499,7 +552,7 @@ func safeIdx(a []string, i int) string {
 func init() {
 	register(&Property{
 		ID: "C16", Level: "fault_enumeration",
-		Rule: "cells = {fault class} x {position: top level, in a block, in an included file; first / middle / last file of an --all run} x {command for which the fault makes the request impossible}, written down once from the statement (missing include, unparsable entry, unknown processor, unknown cmdline type, missing / stray ##!<, unknown stored name, missing identifier, unsupported flag, flags line in an include, odd replacement list; rule id / chain offset / rules file absent, two rules files for the prefix; malformed RULE_ID, absent target file; invalid / missing version; second tier: EROFS before the first byte or ENOSPC after a prefix on the write of the target, injected through the I/O seam). Every cell is enumerated in every run and instantiated on seeded valid worlds (3 rules, chain, 4 assembly files, includes); each instance first runs the command fault-free on the twin world (control), then with the fault, under a seeded schedule. Oracle: exit != 0; generate prints nothing; the failing item's target (file, or rule line for update --all) and, for single-target invocations, the whole tree are byte-identical; format on unsupported flag / stray end marker may alternatively complete with white-space-only changes; write faults: exit != 0 only. Non-trivial = control succeeded and the fault was reached; distinct = distinct cells x worlds.",
+		Rule: "cells = {fault class} x {position: top level, in a block, in an included file; first / middle / last file of an --all run} x {command for which the fault makes the request impossible}, written down once from the statement (missing include, unparsable entry, unknown processor, unknown cmdline type, missing / stray ##!<, unknown stored name, missing identifier, unsupported flag, flags line in an include, odd replacement list; rule id / chain offset / rules file absent, two rules files for the prefix; malformed RULE_ID, absent target file; invalid / missing version; second tier, injected through the I/O seam: EROFS before the first byte or ENOSPC after a prefix on the write of the target; EACCES on open / EIO on read of a file the command needs - assembly file, include file, rules file, test file, .conf / .example file). Every cell is enumerated in every run and instantiated on seeded valid worlds (3 rules, chain, 4 assembly files, includes); each instance first runs the command fault-free on the twin world (control), then with the fault, under a seeded schedule. Oracle: exit != 0; generate prints nothing; the failing item's target (file, or rule line for update --all) and, for single-target invocations, the whole tree are byte-identical; format on unsupported flag / stray end marker may alternatively complete with white-space-only changes; write faults: exit != 0 only. Non-trivial = control succeeded and the fault was reached; distinct = distinct cells x worlds.",
 		Gen:  genC16, Eval: evalC16,
 		Cells:         c16Cells,
 		ChecksPerCell: func(tier string) int { if tier == "thorough" { return 200 }; return 30 },
